@@ -814,13 +814,13 @@ Qed.
 
 (* With Python == deciding that both sides made "the same" change (strict = false), a conflict-free
    merge depends on which side is called local: {a:0} with a:=1 on one side and a:=true on the other. *)
-Theorem symmetry_refuted_pyeq O cfg :
+Theorem symmetry_refuted_pyeq O cfg cs :
   let base := JObj [(ka, JInt 0)] in
   let dl := [DReplace (KS ka) (JInt 1)] in
   let dr := [DReplace (KS ka) (JBool true)] in
   exists d1 d2 m1 m2,
-    decide_merge_with_diff O cfg no_strategies no_hooks GuardListTruthy false false base dl dr = Ok d1 /\ no_conf d1 /\
-    decide_merge_with_diff O cfg no_strategies no_hooks GuardListTruthy false false base dr dl = Ok d2 /\ no_conf d2 /\
+    decide_merge_with_diff O cfg no_strategies no_hooks GuardListTruthy false cs base dl dr = Ok d1 /\ no_conf d1 /\
+    decide_merge_with_diff O cfg no_strategies no_hooks GuardListTruthy false cs base dr dl = Ok d2 /\ no_conf d2 /\
     apply_decisions base d1 = Ok m1 /\ apply_decisions base d2 = Ok m2 /\ m1 <> m2.
 Proof.
   cbv zeta. do 4 eexists.
@@ -849,6 +849,43 @@ Theorem strict_entries_need_strict_assert O cfg :
   decide_merge_with_diff O cfg no_strategies no_hooks GuardListTruthy true false
     (JObj [(ka, JInt 0)]) [DReplace (KS ka) (JInt 1)] [DReplace (KS ka) (JBool true)] = Err AssertionError.
 Proof. vm_compute. reflexivity. Qed.
+
+(* ---------- statements that follow the generated source facts either way ---------- *)
+Definition empty_seq_statement (gk : guard_kind) (r : res (list decision)) : Prop :=
+  match gk with
+  | GuardListTruthy => r = Err AssertionError        (* the law is refuted: unchanged [] at the root raises *)
+  | GuardAnyDiff => r = Ok []                        (* repaired source *)
+  end.
+
+Theorem decide_empty_seq_by_fact O cfg St H gk strict cstrict :
+  empty_seq_statement gk (decide_merge_with_diff O cfg St H gk strict cstrict (JArr []) [] []).
+Proof. destruct gk; [apply decide_id_refuted | apply decide_id_empty_fixed]. Qed.
+
+Definition sym_base : json := JObj [(ka, JInt 0)].
+Definition sym_dl : diff := [DReplace (KS ka) (JInt 1)].
+Definition sym_dr : diff := [DReplace (KS ka) (JBool true)].
+
+Definition symmetry_witness_statement (strict cstrict : bool) (lr rl : res (list decision)) : Prop :=
+  match strict, cstrict with
+  | false, _ =>      (* refuted: conflict-free both ways, merged documents differ *)
+      exists d1 d2 m1 m2, lr = Ok d1 /\ no_conf d1 /\ rl = Ok d2 /\ no_conf d2 /\
+        apply_decisions sym_base d1 = Ok m1 /\ apply_decisions sym_base d2 = Ok m2 /\ m1 <> m2
+  | true, true =>    (* repaired: a conflict in both orders *)
+      exists d1 d2, lr = Ok d1 /\ has_conflicted d1 = true /\ rl = Ok d2 /\ has_conflicted d2 = true
+  | true, false =>   (* half repaired: the conflict registration asserts *)
+      lr = Err AssertionError
+  end.
+
+Theorem symmetry_witness_by_fact O cfg strict cstrict :
+  symmetry_witness_statement strict cstrict
+    (decide_merge_with_diff O cfg no_strategies no_hooks GuardListTruthy strict cstrict sym_base sym_dl sym_dr)
+    (decide_merge_with_diff O cfg no_strategies no_hooks GuardListTruthy strict cstrict sym_base sym_dr sym_dl).
+Proof.
+  destruct strict; [destruct cstrict|]; simpl.
+  - exact (symmetry_example_strict O cfg).
+  - exact (strict_entries_need_strict_assert O cfg).
+  - exact (symmetry_refuted_pyeq O cfg cstrict).
+Qed.
 
 Theorem merge_id_thm : forall O cfg St H base,
   is_container base = true -> plain_string_root St base -> base <> JArr [] -> base <> JStr [] ->
